@@ -13,12 +13,13 @@ use crate::{
 #[cfg(feature = "async")]
 use crate::array::codec::AsyncArrayPartialDecoderTraits;
 
-use super::round_bytes;
 
 /// Partial decoder for the `bitround` codec.
 pub(crate) struct BitroundPartialDecoder {
     input_handle: Arc<dyn ArrayPartialDecoderTraits>,
     data_type: DataType,
+    // Decoding does not depend on the number of kept bits
+    #[allow(dead_code)]
     keepbits: u32,
 }
 
@@ -64,16 +65,9 @@ impl ArrayPartialDecoderTraits for BitroundPartialDecoder {
         array_subsets: &[ArraySubset],
         options: &CodecOptions,
     ) -> Result<Vec<ArrayBytes<'_>>, CodecError> {
-        let bytes = self.input_handle.partial_decode(array_subsets, options)?;
-
-        let mut bytes_out = Vec::with_capacity(bytes.len());
-        for bytes in bytes {
-            let mut bytes = bytes.into_fixed()?;
-            round_bytes(bytes.to_mut(), &self.data_type, self.keepbits)?;
-            bytes_out.push(bytes.into());
-        }
-
-        Ok(bytes_out)
+        // Decoding is the identity, as in `BitroundCodec::decode` (rounding here changed stored values that hold more
+        // bits than `keepbits`, so partial and full reads of the same chunk disagreed)
+        self.input_handle.partial_decode(array_subsets, options)
     }
 }
 
@@ -82,6 +76,8 @@ impl ArrayPartialDecoderTraits for BitroundPartialDecoder {
 pub(crate) struct AsyncBitroundPartialDecoder {
     input_handle: Arc<dyn AsyncArrayPartialDecoderTraits>,
     data_type: DataType,
+    // Decoding does not depend on the number of kept bits
+    #[allow(dead_code)]
     keepbits: u32,
 }
 
@@ -130,18 +126,9 @@ impl AsyncArrayPartialDecoderTraits for AsyncBitroundPartialDecoder {
         array_subsets: &[ArraySubset],
         options: &CodecOptions,
     ) -> Result<Vec<ArrayBytes<'_>>, CodecError> {
-        let bytes = self
-            .input_handle
+        // Decoding is the identity, as in `BitroundCodec::decode`
+        self.input_handle
             .partial_decode(array_subsets, options)
-            .await?;
-
-        let mut bytes_out = Vec::with_capacity(bytes.len());
-        for bytes in bytes {
-            let mut bytes = bytes.into_fixed()?;
-            round_bytes(bytes.to_mut(), &self.data_type, self.keepbits)?;
-            bytes_out.push(bytes.into());
-        }
-
-        Ok(bytes_out)
+            .await
     }
 }
